@@ -239,8 +239,63 @@ fn hashn_case(out: &mut Out, rng: &mut Rng, bytes: &[u8], name: &[u8]) {
     out.nt = false;
 }
 
+/// fixed inputs for the cross-process determinism probe of the hashed-N constructor
+fn probe_values() -> Vec<V> {
+    let mut v = Vec::new();
+    for name in [&b""[..], b"read1", b"read2", b"\xff\x00 a longer read name /1"] {
+        for bytes in [&b"N"[..], b"ACGTNNNNacgtnnnn", b"NNNNNNNNNNNNNNNNNNNNNNNNNNNNNNNNNNNNNNNNNNNNNNNNNNNNNNNNNNNNNNNNNNNNN", b"\x00\xffRYKM-*."] {
+            let d = DnaString::from_acgt_bytes_hashn(bytes, name);
+            v.push(ds_v(&d));
+        }
+    }
+    v
+}
+
+fn v_text(v: &V) -> String {
+    let mut s = String::new();
+    v.write(&mut s);
+    s
+}
+
+/// determinism across two processes: a child process (same binary) recomputes the probe values
+fn cross_process_probe(out: &mut Out) {
+    let args: Vec<String> = std::env::args().collect();
+    let exe = std::env::current_exe().expect("current_exe");
+    let tmp = format!("{}.probe", args[6]);
+    let st = std::process::Command::new(exe)
+        .args([&args[1], &args[2], &args[3], "0", "1", &tmp])
+        .env("C16_PROBE", "1")
+        .stdout(std::process::Stdio::null())
+        .status()
+        .expect("spawn probe");
+    let child = if st.success() { std::fs::read_to_string(&tmp).unwrap_or_default() } else { String::new() };
+    let _ = std::fs::remove_file(&tmp);
+    let child_vals: Vec<&str> = child.lines().filter(|l| l.starts_with("probe ")).collect();
+    let mine = probe_values();
+    out.nt = true;
+    for (i, v) in mine.iter().enumerate() {
+        let expect = format!("probe ( {:x} ) {}", i, v_text(v));
+        let same = child_vals.get(i).map(|l| l.trim_end() == expect).unwrap_or(false);
+        if !same {
+            out.comment(&format!("cross-process probe {} differs: child wrote {:?}", i, child_vals.get(i)));
+        }
+        // the checker says "equal"; the expectation is whether the other process produced the same value
+        out.case("chk.a.same", l(vec![v.clone(), v.clone()]), b(same));
+    }
+    out.nt = false;
+}
+
 pub fn c16(out: &mut Out, rng: &mut Rng, tier: &Tier) {
+    if std::env::var("C16_PROBE").is_ok() {
+        for (i, v) in probe_values().into_iter().enumerate() {
+            out.case("probe", l(vec![nu(i)]), v);
+        }
+        return;
+    }
     out.comment(&format!("avx2_detected={}", avx2_here()));
+    if tier.shard == 0 {
+        cross_process_probe(out);
+    }
     let mut idx = 0usize;
     let mut mine = |idx: &mut usize| {
         let m = *idx % tier.nshards == tier.shard;
